@@ -1,4 +1,5 @@
 import CardVerif.Props.C10
+import CardVerif.Props.C10b
 /-! Axiom audit for C10 (gin: only the move the turn allows is accepted; the transition relation). -/
 #print axioms CardVerif.C10.accept_iff_allowed
 #print axioms CardVerif.C10.pass_next
@@ -9,3 +10,10 @@ import CardVerif.Props.C10
 #print axioms CardVerif.Gin.splitSetsRuns_ok_iff
 #print axioms CardVerif.Gin.layoffDeadwood_ok_iff
 #print axioms CardVerif.Gin.handPoints_total
+#print axioms CardVerif.C10.accept_iff_allowed_from
+#print axioms CardVerif.C10.pass_next_from
+#print axioms CardVerif.C10.draw_next_from
+#print axioms CardVerif.C10.discard_next_rummy_from
+#print axioms CardVerif.C10.discard_next_ricky_from
+#print axioms CardVerif.C10.decline_next_from
+#print axioms CardVerif.C10.pass_never_from
